@@ -123,7 +123,7 @@ def summary (env : Env) (d : Doc) : String :=
     optKind (getValueIdx env d i) ++ "/" ++ optUnits (getKey env d i) ++ "/" ++
       (match getValueAndKey env d i with
        | some (k, v) => unitsStr k ++ "=" ++ toString v.kindNum
-       | none => "~"))
+       | none => "~") ++ "/" ++ optUnits (copyKeyByIndexTo env d i))
   ":".intercalate [
     "k" ++ toString d.kindNum,
     flags,
@@ -189,6 +189,7 @@ def parseOp (toks : List String) : Option Op :=
   | ["set", l, "z"] => (parseLoc l).map Op.touch
   | ["set", l, p] => do some (Op.assign (← parseLoc l) (← parsePayload p))
   | ["typ", l, k] => do some (Op.setType (← parseLoc l) (← k.toNat?))
+  | ["tyc", l, k] => do some (Op.setType (← parseLoc l) (← k.toNat?))
   | ["cpy", l, s, _] => do some (Op.copy (← parseLoc l) (← parseLoc s))
   | ["mov", l, s, _] => do some (Op.move (← parseLoc l) (← parseLoc s))
   | ["obj", l, s, _] => do some (Op.assignObj (← parseLoc l) (← parseLoc s))
@@ -208,6 +209,12 @@ def parseOp (toks : List String) : Option Op :=
   | ["rmi", l, i, _] => do some (Op.removeIdx (← parseLoc l) (← i.toNat?))
   | ["rst", l] => do some (Op.reset (← parseLoc l))
   | ["cmp", l] => do some (Op.compress (← parseLoc l))
+  | ["cop", form, kind, l, s] => do
+      let k ← (if kind == "o" then some 2 else if kind == "a" then some 3 else if kind == "s" then some 4 else none)
+      let add ← (if form == "ac" || form == "am" || form == "cc" || form == "cm" then some false
+                 else if form == "pc" || form == "pm" then some true else none)
+      let mv := form == "am" || form == "pm" || form == "cm"
+      some (Op.container (← parseLoc l) (← parseLoc s) k add mv)
   | ["rsv", l, k, n] => do some (Op.reserve (← parseLoc l) (← k.toNat?) (← n.toNat?))
   | ["clr", l] => do some (Op.clear (← parseLoc l))
   | ["grp", d, s, k] => do some (Op.groupBy (← d.toNat?) (← parseLoc s) (← parseUnits k))
@@ -290,6 +297,7 @@ def parseLOp (toks : List String) : Option LOp :=
   | ["set", l, "z"] => (parseLLoc l).map LOp.touch
   | ["set", l, p] => do some (LOp.assign (← parseLLoc l) (← parsePayload p) (payloadTmp p))
   | ["typ", l, k] => do some (LOp.setType (← parseLLoc l) (← k.toNat?))
+  | ["tyc", l, k] => do some (LOp.setType (← parseLLoc l) (← k.toNat?))
   | ["cpy", l, s, _] => do some (LOp.copy (← parseLLoc l) (← parseSLoc s))
   | ["mov", l, s, _] => do some (LOp.move (← parseLLoc l) (← parseSLoc s))
   | ["obj", l, s, _] => do some (LOp.assignObj (← parseLLoc l) (← parseSLoc s))
